@@ -40,13 +40,17 @@ def verify_one(job):
         res['assumed'] = sorted(ex.assumed_calls)
         res['used_assumptions'] = sorted(ex.used_assumptions)
         res['paths'] = ex.path_count
+        res['default_loops'] = getattr(ex, 'default_loops', 0)
+        res['imprecise'] = sorted(ex.imprecise)
+        impsyms = {k: v for k, v in ex.imprecise.items()}
         c = T.get(qual)
         def on_sat(ob):
             from pyvc import replay
             rp = getattr(c, 'replay', None)
             if rp is not None:
                 return rp(ex, ob, ob.model)
-            return replay.replay_function(ex, c, qual, ob.model, ex.args0)
+            return replay.replay_function(ex, c, qual, ob.model, ex.args0,
+                                          ob_name=ob.name)
         sel = opts.get('select')
         for ob in obls:
             if sel is not None and ob.kind == 'proof' and not sel(ob.name):
@@ -64,6 +68,28 @@ def verify_one(job):
                  'line': ob.line, 'note': ob.note}
             if r.get('second'):
                 d['second'] = r['second']
+            try:
+                import z3 as _z3
+                # a clause that evaluated to plain False (object identity,
+                # a fact about the AST, a ghost counter): its failure does
+                # not hang on any symbolic value
+                d['const_false'] = bool(_z3.is_false(_z3.simplify(ob.goal)))
+            except Exception:   # noqa
+                d['const_false'] = False
+            if r['status'] == 'sat' and ob.kind == 'proof' and impsyms:
+                # which over-approximated values the failed clause hangs on:
+                # constants of the goal, and of the path-condition conjuncts
+                # that share a constant with the goal (one step)
+                try:
+                    gs = sym.const_names(ob.goal)
+                    for cj in ob.pc:
+                        cs = sym.const_names(cj)
+                        if cs & gs:
+                            gs = gs | cs
+                    d['hangs_on'] = sorted(k for k, names in impsyms.items()
+                                           if names & gs)
+                except Exception:   # noqa
+                    d['hangs_on'] = sorted(impsyms)
             if r['status'] == 'unknown' and ob.kind == 'proof' and \
                     getattr(c, 'sampler', None) is not None:
                 # the solver gave no answer: bounded native search for a
